@@ -46,7 +46,12 @@ class SpartanProtocol(BaseGopherProtocol):
 
         content_length = int(content_length)
         if content_length:
-            data = self.rfile.read(content_length)
+            try:
+                data = self.rfile.read(content_length)
+            except OverflowError:
+                # A length no read() can take.
+                self.write_status(4, "Bad request")
+                return
             self.searchrequest = data.decode(errors="surrogateescape")
 
         try:
